@@ -1,2 +1,3 @@
 import Gen.Flags
 import Gen.Excerpt
+import Gen.MetaTable
